@@ -346,3 +346,89 @@ MUTANTS += [
     {"name": "shape:flag:date-flag-also-needs-etag", "expect": "R11.3", "edits": [(SH, "    if modified_since and last_modified and last_modified <= modified_since:\n", "    not_newer = bool(modified_since and last_modified and last_modified <= modified_since and not etag)\n    if not_newer:\n")]},
     {"name": "shape:flag:lm-flag-skips-aware-values", "expect": "R11.3", "edits": [(SH, "    if last_modified is not None:\n        last_modified = _dt_as_utc(", "    has_naive_lm = last_modified is not None and last_modified.tzinfo is None\n    if has_naive_lm:\n        last_modified = _dt_as_utc(")]},
 ]
+
+# ---- round 4: the is_resource_modified call behind a wrapper (method / module function) shared by the two uses ----
+_PROC_DEF = "    def _is_range_request_processable(self, environ: WSGIEnvironment) -> bool:\n"
+_PROC_IRM = (
+    "            or not is_resource_modified(\n                environ,\n                self.headers.get(\"etag\"),\n                None,\n"
+    "                self.headers.get(\"last-modified\"),\n                ignore_if_range=False,\n            )\n"
+)
+_HLP_BODY = "        return {neg}is_resource_modified(\n            environ,\n            self.headers.get(\"etag\"),\n            None,\n            self.headers.get(\"last-modified\"),\n{flag}        )\n\n"
+
+
+def _irm_helper(sig: str, flag: str, mc_use: str, proc_use: str, neg: str = "") -> list:
+    """both uses of is_resource_modified go through one method `sig`; `flag` = the ignore_if_range argument line of the
+    wrapped call ("" = not passed), `mc_use` / `proc_use` = the expressions standing where the calls stood"""
+    helper = f"    def {sig} -> bool:\n        \"\"\"Check the request's validators against this response's headers.\"\"\"\n" + _HLP_BODY.format(neg=neg, flag=flag)
+    return [
+        (RS, _PROC_DEF, helper + _PROC_DEF),
+        (RS, _PROC_IRM, f"            or {proc_use}\n"),
+        (RS, _MC_IRM, f"            if not is206 and {mc_use}:\n"),
+    ]
+
+
+_FLAG_PASSED = "            ignore_if_range=ignore_if_range,\n"
+_MOD_HELPER = (
+    "def _validators_changed(response: Response, environ: WSGIEnvironment, ignore_if_range: bool = FLAGDEFAULT) -> bool:\n"
+    "    etag = response.headers.get(\"etag\")\n    last_modified = response.headers.get(\"last-modified\")\n"
+    "    return is_resource_modified(environ, etag, None, last_modified, ignore_if_range=ignore_if_range)\n\n\n"
+)
+
+
+def _irm_module_helper(default: str, mc_use: str, proc_use: str) -> list:
+    return [
+        (RS, "class Response(_SansIOResponse):\n", _MOD_HELPER.replace("FLAGDEFAULT", default) + "class Response(_SansIOResponse):\n"),
+        (RS, _PROC_IRM, f"            or {proc_use}\n"),
+        (RS, _MC_IRM, f"            if not is206 and {mc_use}:\n"),
+    ]
+
+
+TWINS += [
+    {"name": "shape:irm-helper-flag-parameter-default-ignores", "edits": _irm_helper("_is_modified(self, environ: WSGIEnvironment, ignore_if_range: bool = True)", _FLAG_PASSED, "not self._is_modified(environ)", "not self._is_modified(environ, ignore_if_range=False)")},
+    {"name": "shape:irm-helper-flag-positional-no-default", "edits": _irm_helper("_validators_changed(self, environ: WSGIEnvironment, ignore_if_range: bool)", _FLAG_PASSED, "not self._validators_changed(environ, True)", "not self._validators_changed(environ, False)")},
+    {"name": "shape:irm-helper-returns-unmodified", "edits": _irm_helper("_is_unmodified(self, environ: WSGIEnvironment, ignore_if_range: bool = True)", _FLAG_PASSED, "self._is_unmodified(environ)", "self._is_unmodified(environ, False)", neg="not ")},
+    {"name": "shape:irm-module-helper-with-locals", "edits": _irm_module_helper("True", "not _validators_changed(self, environ)", "not _validators_changed(self, environ, ignore_if_range=False)")},
+    {"name": "shape:irm-helper-only-for-the-304-decision", "edits": [(RS, _PROC_DEF, "    def _is_modified(self, environ: WSGIEnvironment) -> bool:\n" + _HLP_BODY.format(neg="", flag="") + _PROC_DEF), (RS, _MC_IRM, "            if not is206 and not self._is_modified(environ):\n")]},
+    {"name": "shape:irm-helper-only-for-if-range", "edits": [(RS, _PROC_DEF, "    def _if_range_failed(self, environ: WSGIEnvironment) -> bool:\n" + _HLP_BODY.format(neg="", flag="            ignore_if_range=False,\n") + _PROC_DEF), (RS, _PROC_IRM, "            or not self._if_range_failed(environ)\n")]},
+]
+MUTANTS += [
+    {"name": "shape:irm-helper-shared-keeps-if-range-flag", "expect": "R11.4", "edits": _irm_helper("_is_modified(self, environ: WSGIEnvironment)", "            ignore_if_range=False,\n", "not self._is_modified(environ)", "not self._is_modified(environ)")},
+    {"name": "shape:irm-helper-shared-drops-if-range-flag", "expect": "R11.4", "edits": _irm_helper("_is_modified(self, environ: WSGIEnvironment)", "", "not self._is_modified(environ)", "not self._is_modified(environ)")},
+    {"name": "shape:irm-helper-flag-default-evaluates-if-range", "expect": "R11.4", "edits": _irm_helper("_is_modified(self, environ: WSGIEnvironment, ignore_if_range: bool = False)", _FLAG_PASSED, "not self._is_modified(environ)", "not self._is_modified(environ)")},
+    {"name": "shape:irm-helper-processable-passes-ignore", "expect": "R11.4", "edits": _irm_helper("_validators_changed(self, environ: WSGIEnvironment, ignore_if_range: bool)", _FLAG_PASSED, "not self._validators_changed(environ, True)", "not self._validators_changed(environ, True)")},
+    {"name": "shape:irm-helper-unmodified-polarity-lost", "expect": "R11.4", "edits": _irm_helper("_is_unmodified(self, environ: WSGIEnvironment, ignore_if_range: bool = True)", _FLAG_PASSED, "not self._is_unmodified(environ)", "self._is_unmodified(environ, False)", neg="not ")},
+    {"name": "shape:irm-module-helper-flag-never-passed", "expect": "R11.4", "edits": _irm_module_helper("False", "not _validators_changed(self, environ)", "not _validators_changed(self, environ)")},
+    {"name": "shape:irm-helper-flag-parameter-ignored", "expect": "R11.4", "edits": _irm_helper("_is_modified(self, environ: WSGIEnvironment, ignore_if_range: bool = True)", "            ignore_if_range=False,\n", "not self._is_modified(environ)", "not self._is_modified(environ, ignore_if_range=False)")},
+]
+
+# ---- round 4: which Range headers parse_range_header reads (R11.9, evaluated on a finite family) ----
+_PR_SUFFIX = "                begin = _plain_int(item)\n"
+_PR_SPLIT = "            begin_str, end_str = item.split(\"-\", 1)\n"
+_PR_EMPTY = "                if begin >= end:\n                    return None\n"
+
+MUTANTS += [
+    {"name": "range-suffix-length-parsed-after-the-dash", "expect": "R11.9", "edits": [(HT, _PR_SUFFIX, "                begin = -_plain_int(item[1:])\n")]},
+    {"name": "range-plain-int-accepts-plus", "expect": "R11.9", "edits": [(IN, '_plain_int_re = re.compile(r"-?\\d+", re.ASCII)', '_plain_int_re = re.compile(r"[-+]?\\d+", re.ASCII)')]},
+    {"name": "range-first-position-through-int", "expect": "R11.9", "edits": [(HT, "                begin = _plain_int(begin_str)\n", "                begin = int(begin_str)\n")]},
+    {"name": "range-empty-span-admitted", "expect": "R11.9", "edits": [(HT, _PR_EMPTY, "                if begin > end:\n                    return None\n")]},
+    {"name": "range-suffix-sign-lost", "expect": "R11.9", "edits": [(HT, _PR_SUFFIX, "                begin = abs(_plain_int(item))\n")]},
+    {"name": "range-dashes-stripped-from-last", "expect": "R11.9", "edits": [(HT, "            end_str = end_str.strip()\n", "            end_str = end_str.strip(\" -\")\n")]},
+    {"name": "range-unparsable-last-means-open-ended", "expect": "R11.9", "edits": [(HT, "                    end = _plain_int(end_str) + 1\n                except ValueError:\n                    return None\n", "                    end = _plain_int(end_str) + 1\n                except ValueError:\n                    end = None\n")]},
+]
+TWINS += [
+    {"name": "range-suffix-tested-by-first-character", "edits": [(HT, "        if item.startswith(\"-\"):\n            if last_end < 0:", "        if item[:1] == \"-\":\n            if last_end < 0:")]},
+    {"name": "range-split-by-partition", "edits": [(HT, _PR_SPLIT, "            begin_str, _, end_str = item.partition(\"-\")\n")]},
+    {"name": "range-suffix-length-checked-as-digits", "edits": [(HT, _PR_SUFFIX, "                if not item[1:].strip().isascii() or not item[1:].strip().isdigit():\n                    raise ValueError\n                begin = -int(item[1:])\n")]},
+    {"name": "range-positions-parsed-in-one-try", "edits": [(HT, "            try:\n                begin = _plain_int(begin_str)\n            except ValueError:\n                return None\n\n            if begin < last_end or last_end < 0:\n                return None\n", "            try:\n                begin = _plain_int(begin_str)\n                last = _plain_int(end_str) if end_str else None\n            except ValueError:\n                return None\n\n            if begin < last_end or last_end < 0:\n                return None\n")]},
+    {"name": "range-empty-span-test-mirrored", "edits": [(HT, _PR_EMPTY, "                if end <= begin:\n                    return None\n")]},
+]
+
+# ---- the fix 1675685 (a last position has no sign) reverted / weakened ----
+_PR_SIGN_FIX = "                if end_str.startswith(\"-\"):\n                    # _plain_int accepts a sign, a position does not have one\n                    return None\n\n"
+MUTANTS += [
+    {"name": "range-signed-last-position-fix-reverted", "expect": "R11.9", "edits": [(HT, _PR_SIGN_FIX, "")]},
+    {"name": "range-signed-last-position-only-plus-rejected", "expect": "R11.9", "edits": [(HT, "                if end_str.startswith(\"-\"):\n", "                if end_str.startswith(\"+\"):\n")]},
+]
+TWINS += [
+    {"name": "range-signed-last-position-tested-by-first-character", "edits": [(HT, "                if end_str.startswith(\"-\"):\n", "                if end_str[0] == \"-\":\n")]},
+]
